@@ -146,7 +146,7 @@ func schedReplay(r *core.Run, c schedCase) core.Outcome {
 func c16Schedules(r *core.Run) (violated bool) {
 	bound := core.Pick(r, 2, 3)
 	m := core.Begin(r, "schedules", core.Opts{
-		Rule:   "E4: regions is instrumented at build time (a scheduling point before every statement, sync.Mutex/RWMutex/Once as scheduler-visible shims); 2-3 goroutines call At on one shared index (every index of <= 2/3 intervals over {0,1,2} x every assignment of positions {0,1,2} to the goroutines' calls), and 2 goroutines call At on TWO indexes alive at once (every ordered pair from 5/8 small indexes x every assignment of (index, position) to the calls that touches both), and 2-3 calls on indexes of 16, 17, 32, 33 and 64 disjoint intervals (positions first / middle / last / beyond), and write into what they get back; EVERY schedule with at most " + fmt.Sprint(bound) + " preemptions is executed; each answer must be the brute-force answer, no panic, no deadlock, and two sequential scans afterwards must be right. One case = one worker process (shard) or one failing schedule; evals = executions; non-trivial = shards that ran preemptive schedules",
+		Rule:   "E4: regions is instrumented at build time (a scheduling point before every statement, sync.Mutex/RWMutex/Once as scheduler-visible shims); 2-3 goroutines call At on one shared index (every index of <= 2/3 intervals over {0,1,2} x every assignment of positions {0,1,2} to the goroutines' calls), and 2 goroutines call At on TWO indexes alive at once (every ordered pair from 5/8 small indexes x every assignment of (index, position) to the calls that touches both), and 2-3 calls on indexes of 16, 17, 32, 33 and 64 disjoint intervals (positions first / middle / last / beyond) and on indexes whose one piece lists 16 .. 130 intervals, and write into what they get back; EVERY schedule with at most " + fmt.Sprint(bound) + " preemptions is executed; each answer must be the brute-force answer, no panic, no deadlock, and two sequential scans afterwards must be right. One case = one worker process (shard) or one failing schedule; evals = executions; non-trivial = shards that ran preemptive schedules",
 		Bounds: fmt.Sprintf("preemption bound %d on the scenarios of the quick tier (indexes of <= 2 intervals, goroutine shapes {1,1},{2,1},{1,1,1}, two-index scenarios)%s; step budget 20000 per execution", bound, core.Pick(r, "", "; then bound 2 on indexes of <= 3 intervals and the shapes {2,2},{2,1,1}")),
 	}, func(c schedCase) core.Outcome { return schedReplay(r, c) })
 	if m == nil {
